@@ -1,85 +1,84 @@
-(* STUB: replaced at merge by the C15 model *)
-(* dvb.go: parseDVBTime / parseDVBDurationMinutes / parseDVBDurationSeconds and their writers, behind the
-   interface the descriptor model (local time offset) uses.  The date uses exact rational arithmetic in
-   place of the float64 expressions of dvb.go (same truncations, same order); the harness of C14 compares
-   it with the implementation on all 65536 MJD words. time.Time = Unix seconds, time.Duration = ns. *)
-From Coq Require Import ZArith List Lia Bool.
-Require Import Base.Bits Base.Iter Base.Wr Gen.Consts Gen.Types Gen.Preds.
+(* DVB date/time and BCD durations (dvb.go): parsers (iterator monad) and writers (BitsWriter item lists).
+   The date arithmetic, the model of package time and the float64 model live in Model/DvbDate.v (re-exported);
+   this file adds what uses the byte functions re-translated from dvb.go on every run (Gen.Preds).
+
+   Interface for other models (integers only, extracted):
+     dvb_date_unix (mjd : Z) : Z                      Unix seconds of 00:00 UTC of the day parseDVBTime computes
+     parse_dvb_duration_byte (b : Z) : Z
+     parse_dvb_duration_seconds, parse_dvb_duration_minutes : IM Z      nanoseconds
+     parse_dvb_time : IM Z                            Unix seconds
+     enc_dvb_time (unix : Z) : list witem             writeDVBTime for a UTC time with whole seconds
+     enc_dvb_duration_seconds, enc_dvb_duration_minutes (ns : Z) : list witem
+   and the float64-faithful writers enc_dvb_*_float (not extracted; proved equal in Proofs/DvbProofs.v).
+
+   No proofs in this file. *)
+From Coq Require Import ZArith List Bool.
+Require Import Base.Bits Base.Iter Base.Wr Gen.Preds.
+Require Export Model.DvbDate.
 Import ListNotations.
 Open Scope Z_scope.
 Open Scope iter_scope.
 
-Definition ns_hour : Z := 3600000000000.
-Definition ns_minute : Z := 60000000000.
-Definition ns_second : Z := 1000000000.
+(* ---- parsers ---- *)
 
-(* days from 1970-01-01 to the civil date y-m-d, with time.Date's normalisation of months outside
-   1..12 and of days outside the month (the day is simply added) *)
-Definition days_from_civil (y m d : Z) : Z :=
-  let y := y + (m - 1) / 12 in
-  let m := (m - 1) mod 12 + 1 in
-  let y' := if m <=? 2 then y - 1 else y in
-  let era := y' / 400 in
-  let yoe := y' - era * 400 in
-  let mp := (m + 9) mod 12 in
-  let doy := (153 * mp + 2) / 5 in
-  let doe := yoe * 365 + yoe / 4 - yoe / 100 + doy in
-  era * 146097 + doe - 719468 + (d - 1).
+(* parseDVBDurationByte, re-translated from dvb.go on every run: uint8(i)>>4*10 + uint8(i)&0xf in uint8 *)
+Definition parse_dvb_duration_byte (b : Z) : Z := parseDVBDurationByte b.
 
-(* civil date of a day number (days since 1970-01-01) *)
-Definition civil_from_days (z : Z) : Z * Z * Z :=
-  let z := z + 719468 in
-  let era := z / 146097 in
-  let doe := z - era * 146097 in
-  let yoe := (doe - doe / 1460 + doe / 36524 - doe / 146096) / 365 in
-  let y := yoe + era * 400 in
-  let doy := doe - (365 * yoe + yoe / 4 - yoe / 100) in
-  let mp := (5 * doy + 2) / 153 in
-  let d := doy - (153 * mp + 2) / 5 + 1 in
-  let m := if mp <? 10 then mp + 3 else mp - 9 in
-  (if m <=? 2 then y + 1 else y, m, d).
-
-(* the date part of parseDVBTime: Annex C of EN 300 468 with int() truncating toward zero *)
-Definition dvb_date_days (mjd : Z) : Z :=
-  let yt := Z.quot (20 * mjd - 301564) 7305 in                       (* int((mjd - 15078.2) / 365.25) *)
-  let k1 := Z.quot (yt * 1461) 4 in                                    (* int(yt * 365.25) *)
-  let mt := Z.quot ((10 * mjd - 149561 - 10 * k1) * 1000) 306001 in    (* int((mjd - 14956.1 - k1) / 30.6001) *)
-  let d := mjd - 14956 - k1 - Z.quot (mt * 306001) 10000 in
-  let k := if (mt =? 14) || (mt =? 15) then 1 else 0 in
-  days_from_civil (1900 + yt + k) (mt - 1 - k * 12) d.
-
-Definition parse_dvb_duration_minutes : IM Z :=
-  bs <- next_bytes_nocopy 2 ;;
-  iret (parseDVBDurationByte (byte_at bs 0) * ns_hour + parseDVBDurationByte (byte_at bs 1) * ns_minute).
-
+(* parseDVBDurationSeconds: nanoseconds *)
 Definition parse_dvb_duration_seconds : IM Z :=
   bs <- next_bytes_nocopy 3 ;;
-  iret (parseDVBDurationByte (byte_at bs 0) * ns_hour + parseDVBDurationByte (byte_at bs 1) * ns_minute
-        + parseDVBDurationByte (byte_at bs 2) * ns_second).
+  iret (parse_dvb_duration_byte (byte_at bs 0) * ns_hour
+        + parse_dvb_duration_byte (byte_at bs 1) * ns_minute
+        + parse_dvb_duration_byte (byte_at bs 2) * ns_second).
 
+(* parseDVBDurationMinutes: nanoseconds *)
+Definition parse_dvb_duration_minutes : IM Z :=
+  bs <- next_bytes_nocopy 2 ;;
+  iret (parse_dvb_duration_byte (byte_at bs 0) * ns_hour
+        + parse_dvb_duration_byte (byte_at bs 1) * ns_minute).
+
+(* parseDVBTime: Unix seconds (the duration is a whole number of seconds, so t.Add stays on seconds) *)
 Definition parse_dvb_time : IM Z :=
   bs <- next_bytes_nocopy 2 ;;
   let mjd := be16 bs in
   s <- parse_dvb_duration_seconds ;;
-  iret (dvb_date_days mjd * 86400 + Z.quot s ns_second).
+  iret (dvb_date_unix mjd + s / ns_second).
 
-(* uint8(d.Hours()), uint8(int(d.Minutes()) % 60), uint8(int(d.Seconds()) % 60) for durations whose
-   float64 quotients are exact enough (whole seconds, |d| < 2^53 ns) *)
-Definition dur_hours (ns : Z) : Z := (Z.quot ns ns_hour) mod 256.
-Definition dur_minutes (ns : Z) : Z := (Z.rem (Z.quot ns ns_minute) 60) mod 256.
-Definition dur_seconds (ns : Z) : Z := (Z.rem (Z.quot ns ns_second) 60) mod 256.
+(* ---- writers ---- *)
 
-Definition enc_dvb_duration_minutes (ns : Z) : list witem :=
-  [wu8 (dvbDurationByteRepresentation (dur_hours ns)); wu8 (dvbDurationByteRepresentation (dur_minutes ns))].
-
+(* writeDVBDurationSeconds (returns 3) *)
 Definition enc_dvb_duration_seconds (ns : Z) : list witem :=
-  [wu8 (dvbDurationByteRepresentation (dur_hours ns)); wu8 (dvbDurationByteRepresentation (dur_minutes ns));
+  [wu8 (dvbDurationByteRepresentation (dur_hours ns));
+   wu8 (dvbDurationByteRepresentation (dur_minutes ns));
    wu8 (dvbDurationByteRepresentation (dur_seconds ns))].
 
-(* writeDVBTime for a UTC time: mjd from Year/Month/Day, then the time of day *)
+(* writeDVBDurationMinutes (returns 2) *)
+Definition enc_dvb_duration_minutes (ns : Z) : list witem :=
+  [wu8 (dvbDurationByteRepresentation (dur_hours ns));
+   wu8 (dvbDurationByteRepresentation (dur_minutes ns))].
+
+(* writeDVBTime for the UTC time with Unix seconds `unix` (whole seconds; returns 5).
+   t.Truncate(24h) is the start of the UTC day, t.Sub(..) the time of day *)
 Definition enc_dvb_time (unix : Z) : list witem :=
-  let '(y, m, d) := civil_from_days (unix / 86400) in
-  let year := y - 1900 in
-  let l := if m <=? 2 then 1 else 0 in
-  let mjd := 14956 + d + Z.quot ((year - l) * 1461) 4 + Z.quot ((m + 1 + l * 12) * 306001) 10000 in
-  wu16 mjd :: enc_dvb_duration_seconds ((unix mod 86400) * ns_second).
+  let days := unix / 86400 in
+  let sod := unix mod 86400 in
+  let '(y, m, d) := go_civil_of_days days in
+  wu16 (dvb_mjd_of_ymd y m d mod 65536) :: enc_dvb_duration_seconds (sod * ns_second).
+
+(* ---- the writers with the float64 expressions of package time / dvb.go (DvbFloat) ---- *)
+
+Definition enc_dvb_duration_seconds_float (ns : Z) : list witem :=
+  [wu8 (dvbDurationByteRepresentation (DvbFloat.dur_hours_float ns));
+   wu8 (dvbDurationByteRepresentation (DvbFloat.dur_minutes_float ns));
+   wu8 (dvbDurationByteRepresentation (DvbFloat.dur_seconds_float ns))].
+
+Definition enc_dvb_duration_minutes_float (ns : Z) : list witem :=
+  [wu8 (dvbDurationByteRepresentation (DvbFloat.dur_hours_float ns));
+   wu8 (dvbDurationByteRepresentation (DvbFloat.dur_minutes_float ns))].
+
+Definition enc_dvb_time_float (unix : Z) : list witem :=
+  let days := unix / 86400 in
+  let sod := unix mod 86400 in
+  let '(y, m, d) := go_civil_of_days days in
+  wu16 (DvbFloat.ymd_to_mjd_float y m d mod 65536) :: enc_dvb_duration_seconds_float (sod * ns_second).
+
